@@ -180,7 +180,7 @@ var globalTrusted = []string{
 	"z3 4.8.12 / z3 5.1.0 / cvc5 1.0 are sound when they answer unsat",
 	"govc (this VC generator): SSA->SMT translation, heap model, lock/monitor rules (mitigated by canaries, cover checks and the must-fail corpus in /verif/seeded and /verif/selftest)",
 	"integers are mathematical with range assumptions on loads/parameters; unsigned arithmetic wraps; signed overflow assumed absent",
-	"library contracts in govc/calls.go libModels (sync, sync/atomic, encoding/binary.BigEndian, bytes.HasPrefix/Equal, time.After/AfterFunc; errors.As/Is are false for a nil error) are trusted",
+	"library contracts in govc/calls.go libModels (sync, sync/atomic, encoding/binary.BigEndian, bytes.HasPrefix/Equal, time.After/AfterFunc; errors.As/Is are false for a nil error; strings.Index returns -1 or a position where the substring fits) are trusted",
 	"uncontracted module calls havoc the heap variables their transitive bodies may write (syntactic frame) and return arbitrary values",
 	"external library calls only write byte slices / cells passed to them",
 	"pointer parameters, receivers and fields not declared nullable are non-nil (policy, DESIGN 4)",
